@@ -44,8 +44,10 @@ class TimingMap:
         return from_bpm_changes_snap(initial_offset, bpm_changes_snap, reseat)
 
     def reseat(self) -> TimingMap:
+        # bpm_changes_snap() sorts bpm_changes_offset in place: take the first offset after it
+        bpm_changes_snap = self.bpm_changes_snap()
         return self.from_bpm_changes_snap(
-            self.bpm_changes_offset[0].offset, self.bpm_changes_snap(), reseat=True
+            self.bpm_changes_offset[0].offset, bpm_changes_snap, reseat=True
         )
 
     @staticmethod
